@@ -54,6 +54,13 @@ fn main() {
             if cfg.shard % 2 == 1 {
                 log::set_max_level(log::LevelFilter::Trace);
             }
+            // two more: the -i (print every opcode) and -m (print every message) options of the
+            // emulator; the driver selects them for one shard each and discards that shard's stdout
+            match std::env::var("H8MON_PRINT").as_deref() {
+                Ok("opcode") => *setting::ENABLE_PRINT_OPCODE.write().unwrap() = true,
+                Ok("messages") => *setting::ENABLE_PRINT_MESSAGES.write().unwrap() = true,
+                _ => {}
+            }
             let t0 = Instant::now();
             let Some(mut rep) = checks::run(&id, &cfg) else {
                 eprintln!("unknown check {}", id);
